@@ -16,7 +16,10 @@ NAMES = ["a", "b", "c", "d", "n", "foo", "batch"]
 VNAMES = ["v", "w"]
 DOCS = ["rows", "cols", "doc", "x1"]
 SIZES = [0, 1, 2, 3, 4, 5, 7]
-HOLE_ARGS = {"hn": 3, "hm": 0}  # values of the int arguments usable in {hn}
+# values of the int arguments usable in {..} holes.  'n' and 'a' are ALSO axis names of the pool on purpose: an axis
+# name in a symbolic expression refers to the bound axis (never to a same-named argument), a name inside {..} to the
+# argument (never to a same-named axis)
+HOLE_ARGS = {"hn": 3, "hm": 0, "n": 6, "a": 2}
 HOLE_ATTR = ("hobj", "k", 4)
 
 
